@@ -218,8 +218,12 @@ func concurrentRun(run *hx.Run, r *hx.Rng) {
 	sim := NewSim(w, h)
 	defer sim.Close()
 	var wg sync.WaitGroup
+	var rmu sync.Mutex // hx.Run is not safe for concurrent use
+	run.Current("concurrent run " + h.Cfg.String())
 	stop := make(chan struct{})
 	fail := func(where string, fs []clauseFail) {
+		rmu.Lock()
+		defer rmu.Unlock()
 		for _, f := range fs {
 			if f.clause == "run" && f.missing < w.HiNonce(f.acct) {
 				f.clause = "run-reinject-hole" // a hole below a nonce the chain had already reached: re-injection after a rollback
@@ -234,7 +238,9 @@ func concurrentRun(run *hx.Run, r *hx.Rng) {
 			defer wg.Done()
 			defer func() {
 				if e := recover(); e != nil {
+					rmu.Lock()
 					run.Violate("concurrent-panic", "concurrent-panic", h.Cfg, fmt.Sprint(e))
+					rmu.Unlock()
 				}
 			}()
 			for i := 0; i < 150; i++ {
@@ -283,7 +289,10 @@ func concurrentRun(run *hx.Run, r *hx.Rng) {
 			}
 			st := Observe(w, sim.pool)
 			fail("mid-run snapshot", st.CheckInv(h.Cfg, false))
+			rmu.Lock()
 			run.Count("concurrent:snapshots")
+			rmu.Unlock()
+			run.Current("concurrent run " + h.Cfg.String()) // progress for the watchdog
 			time.Sleep(200 * time.Microsecond)
 		}
 	}()
@@ -292,7 +301,9 @@ func concurrentRun(run *hx.Run, r *hx.Rng) {
 	select {
 	case <-done:
 	case <-time.After(120 * time.Second):
+		rmu.Lock()
 		run.Violate("hang", "concurrent-hang", h.Cfg, "concurrent run did not finish within 120 s")
+		rmu.Unlock()
 		close(stop)
 		return
 	}
